@@ -59,7 +59,10 @@ def run_case(case):
         if e is not None:
             res.viol("build_raised", error=exc_str(e))
             return res
-        s = str(f)
+        s, e = call(str, f)
+        if e is not None:
+            res.viol("str_raised", error=exc_str(e), desc=desc)
+            return res
     else:
         s = assemble(case["tokens"])
         expected, _state, problems = sgr.interpret(s)
